@@ -46,7 +46,8 @@ fn gen_phased(rng: &mut Rng, i: u64) -> Value {
             if rng.next() % 3 == 0 { ops.push(json!({"op": if st { "unbond_stsei" } else { "unbond_bsei" }, "who": who, "units": 1 + rng.next() % 3})); }
             else { ops.push(json!({"op": if st { "unbond_stsei" } else { "unbond_bsei" }, "who": who, "frac": 1 + rng.next() % 4})); }
         }
-        ops.push(json!({"op": "wait", "dt": 31 + rng.next() % 10}));
+        if rng.next() % 3 == 0 { ops.push(json!({"op": "wait", "dt": 20})); ops.push(json!({"op": "update_global"})); ops.push(json!({"op": "wait", "dt": 11 + rng.next() % 10})); }
+        else { ops.push(json!({"op": "wait", "dt": 31 + rng.next() % 10})); }
     }
     // the unbond that closes the last batch
     ops.push(json!({"op": "unbond_bsei", "who": rng.next() % 3, "units": 1}));
@@ -77,7 +78,7 @@ impl Driver for HubSeq {
                 11 => json!({"op": "convert_sb", "who": who, "frac": 1 + rng.next() % 4}),
                 12 | 13 | 14 => json!({"op": "withdraw", "who": who}),
                 15 | 16 => { let dt = [5u64, 31, 40, 500, 1000, 1001][(rng.next() % 6) as usize]; json!({"op": "wait", "dt": dt}) }
-                17 => json!({"op": "bond_rewards", "amt": (1 + rng.amount(cap / 10 + 1)).to_string()}),
+                17 => if rng.next() % 2 == 0 { json!({"op": "bond_rewards", "amt": (1 + rng.amount(cap / 10 + 1)).to_string()}) } else { json!({"op": "update_global"}) },
                 18 => if quiet { json!({"op": "check_slashing"}) } else { json!({"op": "slash", "permille": 1 + rng.next() % 300, "queue": rng.next() % 2 == 0}) },
                 _ => if quiet { json!({"op": "wait", "dt": 31}) } else { json!({"op": "donate", "amt": rng.amount(cap).to_string()}) },
             });
@@ -95,6 +96,7 @@ impl Driver for HubSeq {
         let mut queue: Vec<(u64, u128)> = vec![];                  // (completion time, coins) of running undelegations
         let mut received = [0u128; 3];
         let mut slashed_since_check = false; let mut ever_disturbed = false; let mut donated = false;
+        let mut last_close: u64 = 0;            // time of the previous batch undelegation (the stored state starts with last_unbonded_time = 0)
         let mut slash_unrecognised = false;   // a validator was slashed and no handler has run its slashing check since
         let mut seen: BTreeMap<u64, UnbondHistory> = BTreeMap::new();  // released entries, as first seen
         let mut paid_from: BTreeMap<u64, bool> = BTreeMap::new();      // batches some claimant has already been paid from
@@ -122,6 +124,7 @@ impl Driver for HubSeq {
                 "unbond_stsei" | "convert_sb" => { let a = if op["units"].is_u64() { (op["units"].as_u64().unwrap() as u128).min(tok_s[who]) } else { tok_s[who] * frac / 4 }; if a == 0 { None } else { sent_tokens = (0, a); Some(call(&mut deps, now, "stsei_token", 0, hook(if kind == "unbond_stsei" { Cw20HookMsg::Unbond {} } else { Cw20HookMsg::Convert {} }, a))) } }
                 "withdraw" => Some(call(&mut deps, now, USERS[who], 0, ExecuteMsg::WithdrawUnbonded {})),
                 "check_slashing" => Some(call(&mut deps, now, "anyone", 0, ExecuteMsg::CheckSlashing {})),
+                "update_global" => { user_op = false; Some(call(&mut deps, now, "updater", 0, ExecuteMsg::UpdateGlobalIndex { airdrop_hooks: None })) }
                 "wait" => { now += op["dt"].as_u64().unwrap_or(5); user_op = false; None }
                 "slash" => { let pm = op["permille"].as_u64().unwrap_or(1) as u128; for d in deps.querier.delegations.iter_mut() { d.1 -= d.1 * pm / 1000; } if op["queue"].as_bool().unwrap_or(false) { for q in queue.iter_mut() { q.1 -= q.1 * pm / 1000; } } slashed_since_check = true; slash_unrecognised = true; ever_disturbed = true; user_op = false; None }
                 "donate" => { deps.querier.balance += u(&op["amt"]); ever_disturbed = true; donated = true; user_op = false; None }
@@ -188,6 +191,12 @@ impl Driver for HubSeq {
             if accepted && (kind == "bond" || kind == "bond_stsei" || kind == "bond_rewards" || kind.starts_with("convert") || kind == "check_slashing") {
                 and(&mut c, "hs#C02.liquid_balance_untouched", queue.len() == queue.len() && deps.querier.balance + 0 == deps.querier.balance && paid == 0);
             }
+            // C09 / C08: the open batch is undelegated by the first unbond that arrives more than one epoch period after the previous undelegation -- and only then
+            if accepted && (kind == "unbond_bsei" || kind == "unbond_stsei") {
+                let due = now > last_close + 30;
+                and(&mut c, "hs#C09.first_unbond_after_the_epoch_undelegates", (cb1.id == cb0.id + 1) == due);
+                if cb1.id != cb0.id { last_close = now; }
+            }
             // C04: a rate falls only through slashing.  Whenever no validator was slashed since the books last agreed with the chain, no accepted
             // operation (including the slashing checks the handlers run themselves) may lower a rate
             if accepted && !slash_unrecognised {
@@ -243,6 +252,13 @@ impl Driver for HubSeq {
                     // batches that only this call would have released are not counted: re-evaluate what the call would release through the rates it failed on is
                     // not possible; the claim is therefore stated for batches already released before the call.
                     and(&mut c, "hs#C09.withdraw_succeeds_for_a_matured_claim", due_user[who] == 0);
+                    // in a history without slashing or unsolicited transfers every batch whose unbonding period has passed is worth what was requested:
+                    // a claimant holding two or more base units of such a claim can withdraw, whether or not anybody has released the batch yet
+                    if !ever_disturbed {
+                        let mut matured_value = 0u128;
+                        for (b, x, y) in reqs_before.iter() { if let Some(h) = hist.get((*b - 1) as usize) { if h.time + UNBONDING <= now { matured_value += mulf(x.u128(), h.bsei_applied_exchange_rate.atomics().u128()) + mulf(y.u128(), h.stsei_applied_exchange_rate.atomics().u128()); } } }
+                        and(&mut c, "hs#C01.matured_claim_is_withdrawable", matured_value < 2);
+                    }
                 }
             }
             for h in hist.iter() { if !paid_from.get(&h.batch_id).copied().unwrap_or(false) { let s = per_batch.get(&h.batch_id).copied().unwrap_or((0, 0)); and(&mut c, "hs#C07.history_total_is_sum_of_claims_until_paid", s == (h.bsei_amount.u128(), h.stsei_amount.u128())); } }
@@ -264,6 +280,12 @@ impl Driver for HubSeq {
             }
             let want: Vec<_> = stored.iter().map(|h| (h.batch_id, h.time, h.bsei_amount.u128(), h.stsei_amount.u128(), h.bsei_applied_exchange_rate.to_string(), h.bsei_withdraw_rate.to_string(), h.stsei_applied_exchange_rate.to_string(), h.stsei_withdraw_rate.to_string(), h.released)).collect();
             and(&mut c, "hs#C07.all_history_reports_stored_batches", paged == want);
+            for k in [0u64, 1, 2, stored.len() as u64, stored.len() as u64 + 3] {
+                let r: AllHistoryResponse = from_json(&query(deps.as_ref(), mock_env(), QueryMsg::AllHistory { start_from: Some(k), limit: Some(100) }).unwrap()).unwrap();
+                let got: Vec<u64> = r.history.iter().map(|h| h.batch_id).collect();
+                let exp: Vec<u64> = stored.iter().map(|h| h.batch_id).filter(|b| *b > k).collect();
+                and(&mut c, "hs#C07.all_history_reports_stored_batches", got == exp);
+            }
             let first: AllHistoryResponse = from_json(&query(deps.as_ref(), mock_env(), QueryMsg::AllHistory { start_from: None, limit: None }).unwrap()).unwrap();
             and(&mut c, "hs#C07.all_history_reports_stored_batches", first.history.len() == stored.len().min(10) && first.history.iter().zip(stored.iter()).all(|(a, b)| a.batch_id == b.batch_id && a.bsei_amount == b.bsei_amount && a.stsei_amount == b.stsei_amount && a.released == b.released));
         }
